@@ -70,6 +70,20 @@ class RawTok(Model):
         return Marker("pyscalar", ("any", self.origin))
 
     @property
+    def ndim(self):
+        return len(self.shape)
+
+    def truth(self):
+        """bool(ndarray): ambiguous for more than one element (numpy raises), the element's own truth otherwise (not known: explored)"""
+        n = self.size
+        if isinstance(n, int) and n > 1:
+            raise Raised("ValueError", None, "The truth value of an array with more than one element is ambiguous. Use a.any() or a.all()")
+        if n == 0:
+            return False
+        from ..models import decide
+        return decide("truth of the array %r" % (self.origin,), "truth value of the array %r is not decided by the abstraction" % (self,))
+
+    @property
     def size(self):
         n = 1
         for d in self.shape:
